@@ -52,7 +52,7 @@ def run(ctx):
         if res["violated"]:
             raise common.MachineryError("design step: %s violated on the model" % res["violated"])
         p = ctx.vh(["warnings", "gen", str(4000 if quick else 80000)])
-        for line in p.stdout.decode().splitlines():
+        for line in p.stdout.decode().split("\n"):
             if line.strip():
                 fh.write(line + "\n")
                 n[0] += 1
